@@ -17,6 +17,8 @@ func verifL_C17(n int) {
 		eff = int64(15 * time.Second)
 	}
 	const m = 2
+	last := verifInt64("now")
+	verifAssume(last >= verifT0 && last <= verifT1)
 	curCall := -1
 	var cbDone [4]int
 	var accepted, rejected [4]bool
@@ -32,7 +34,9 @@ func verifL_C17(n int) {
 				cbDone[c]++
 				curCall = c
 				if j == 0 {
-					lr := inv.lastRun.UnixNano()
+					// the instant this accepted call starts to run = the current time (the latest clock reading anybody
+					// made), observed without advancing the clock
+					lr := last
 					verifAssert("accepted calls are spaced at least SkipInterval apart", verifOr(eff <= 0, verifOr(!haveLast, lr-prevRun >= eff)))
 					haveLast, prevRun = true, lr
 				}
@@ -42,8 +46,6 @@ func verifL_C17(n int) {
 			})
 		})
 	}
-	last := verifInt64("now")
-	verifAssume(last >= verifT0 && last <= verifT1)
 	verifClockFn = func() int64 {
 		var t int64
 		verifAtomic(func() {
